@@ -1135,7 +1135,10 @@ DOMServices::isNodeAfter(
                     if (0 == prevChild1) // first time in loop?
                     {
                         // Edge condition: one is the ancestor of the other.
-                        isNodeAfter = (nParents1 < nParents2) ? true : false;
+                        // The ancestor (the shorter chain) comes first in
+                        // document order, so node1 is after node2 only when
+                        // node1 is the descendant.
+                        isNodeAfter = (nParents1 > nParents2) ? true : false;
 
                         break; // from while loop
                     }
